@@ -439,7 +439,9 @@ ATTR_NAMES = STYLE_ATTRS + OTHER_ATTRS + ["ttp:cellResolution", "ttp:frameRate",
 
 # typed values that every slice of the quick tier keeps: with the seeds' begin="1s" / end="2s" they give an interval that is shorter than a
 # millisecond and straddles a millisecond boundary (rounded time codes coincide, truncated ones do not)
-ALWAYS_VALUES = ["1.9996s", "1.0004s"]
+ALWAYS_VALUES = ["1.9996s", "1.0004s",
+                 # numbers that become an infinite float: as percentage, pixel and cell lengths and as a pair (origin / extent)
+                 "1" + "0" * 400 + "%", "1" + "0" * 400 + "px", "1" + "0" * 400 + "% 1" + "0" * 400 + "%", "0% 1" + "0" * 400 + "%"]
 
 VALUE_POOL = GENERIC + ALWAYS_VALUES + [
   " ", "  ", "1", "2", "0.5", "1.5", "NaN", "inf", "-inf", "1e400", "1e-400", "+1", "١",
